@@ -1,5 +1,6 @@
 import IpcHub.Drv.Util
 import IpcHub.Model.TablesInst
+import IpcHub.Spec.TableConc
 import IpcHub.Spec.UserEntry
 namespace IpcHub.Drv.C18
 open IpcHub.Drv IpcHub.Tables IpcHub.TableSpec IpcHub.UserTable IpcHub.Route
@@ -13,9 +14,17 @@ open IpcHub.Drv IpcHub.Tables IpcHub.TableSpec IpcHub.UserTable IpcHub.Route
            k,<hook>,<part>   (Flush is called and the process dies at that crash point of
                               EncodeJSONFile, `part` ∈ - 0 1 h m a = bytes of the write in
                               progress: none, 0, 1, half, all but one, all; then a restart)
+           c,<hook>,s,… | c,<hook>,d,<key>   (Flush is called and, when it has reached that point of
+                              EncodeJSONFile, the edit is issued from another goroutine; the
+                              implementation answers `C:<blocked|during|nohook>;<flush answer>;<edit answer>`:
+                              the edit did not / did complete while the flush was parked there /
+                              the point was never reached and the edit ran after the flush)
            x,missing | x,corrupt | x,emptylist   (the file is replaced by hand)
-    after the ops, `@ o|n|x …`: what the implementation's table file was after each `k`
-    (old / new / neither) — the specification allows old and new and continues from the one seen
+    after the ops, `@ o|n|x|b|d …`: observations, one per `k` and `c` op in order: what the
+    implementation's table file was after a `k` (old / new / neither) — the specification allows old
+    and new and continues from the one seen; whether the edit of a `c` took effect after the flush
+    had returned (b) or while it was running (d) — the specification allows both orders; after `d`
+    it makes no claim on what a restart loads until a further flush has run
     answer: `model=<obs>|… spec=<obs>|…`; the spec answers "-" where the statement says nothing
     `crash <hook> <partial|-> <old-hex|none> <new-hex>` → what a restart reads after the process
     died at that crash point of EncodeJSONFile: `old|new|missing|other:<hex>` -/
@@ -29,6 +38,7 @@ inductive TOp (V : Type) where
   | restart
   | failFlush
   | crash (hook part : String)
+  | during (hook : String) (edit : Op V)
   | setDisk (kind : String) (tbl : Option (List V))
 
 structure Kind (V : Type) where
@@ -37,6 +47,7 @@ structure Kind (V : Type) where
   dflt : List V
   fmt : V → String
   guarded : Bool
+  locked : Bool
 
 def fmtUser (u : User) : String :=
   s!"{charsToHex u.name},{charsToHex u.password},{boolStr u.admin},{charsToHex u.push},{charsToHex u.pull}"
@@ -95,6 +106,12 @@ def parseUserOp (tok : String) : Option (TOp User) :=
     | some n, some pw, some push, some pull =>
       some (.save { name := n, password := pw, admin := ad = "1", push := push, pull := pull } (upd = "1"))
     | _, _, _, _ => none
+  | "c" :: hook :: "s" :: [n, pw, ad, push, pull, upd] =>
+    match hexToChars n, hexToChars pw, hexToChars push, hexToChars pull with
+    | some n, some pw, some push, some pull =>
+      some (.during hook (.save { name := n, password := pw, admin := ad = "1", push := push, pull := pull } (upd = "1")))
+    | _, _, _, _ => none
+  | ["c", hook, "d", k] => (hexToChars k).map (fun k => .during hook (.del k))
   | p => parseCommon userEntry p
 
 def routeEntry : List String → Option Route
@@ -122,6 +139,11 @@ def parseRouteOp (tok : String) : Option (TOp Route × Option (List Char)) :=
     match hexToChars p, hexToChars u with
     | some p, some u => some (.save { pattern := p, url := u, keepAlive := ka = "1" } false, if ok = "1" then none else some u)
     | _, _ => none
+  | ["c", hook, "s", p, u, ka, ok] =>
+    match hexToChars p, hexToChars u with
+    | some p, some u => some (.during hook (.save { pattern := p, url := u, keepAlive := ka = "1" } false), if ok = "1" then none else some u)
+    | _, _ => none
+  | ["c", hook, "d", k] => (hexToChars k).map (fun k => (.during hook (.del k), none))
   | p => (parseCommon routeEntry p).map (·, none)
 
 /-- where the regenerated program of EncodeJSONFile leaves the table file when the process dies at
@@ -143,6 +165,11 @@ def crashDummy (hook part : String) (hadOld : Bool) : String :=
       match Fs.processOutcome (Fs.crashState newb (Fs.Fs.init oldb) prog k p) with
       | none => if hadOld then "missing" else "old"
       | some c => if some c = oldb then "old" else if c = newb then "new" else "other"
+
+/-- what `Save` / `Del` answer -/
+def editAnswer {V : Type} (k : Kind V) (st : State V) : Op V → String
+  | .save v flag => if (save k.ops st v flag).2 then "ok" else "err"
+  | _ => "ok"
 
 def runModel {V : Type} (k : Kind V) : List (TOp V) → Server V → List String → List String
   | [], _, acc => acc.reverse
@@ -183,28 +210,67 @@ def runModel {V : Type} (k : Kind V) : List (TOp V) → Server V → List String
         | some t => .table t
         | none => if kind = "missing" then .missing else if kind = "emptylist" then .table [] else .corrupt
       runModel k rest { sv with disk := d } ("ok" :: acc)
+    | .during hook e =>
+      -- the edit's own answer does not depend on when it runs (Save fails only on what init rejects)
+      let er := editAnswer k sv.st e
+      match flush k.guarded sv.st with
+      | (_, none) =>
+        -- nothing pending: Flush returns without calling the provider, the edit runs afterwards
+        runModel k rest (Server.flushDuring k.ops k.guarded true k.dflt sv e) (s!"C:nohook;skip;{er}" :: acc)
+      | (_, some full) =>
+        let w := s!"W:{fmtList k.fmt full};S:{fmtKeys sv.st.saves};R:{fmtKeys sv.st.removes}"
+        let reached := match Fs.genProg with
+          | some prog => (Fs.hookIndex prog hook).isSome
+          | none => false
+        if !reached then runModel k rest (Server.flushDuring k.ops k.guarded true k.dflt sv e) (s!"C:nohook;{w};{er}" :: acc)
+        else
+          let how := if k.locked then "blocked" else "during"
+          runModel k rest (Server.flushDuring k.ops k.guarded k.locked k.dflt sv e) (s!"C:{how};{w};{er}" :: acc)
 
-def runSpec {V : Type} (k : Kind V) : List (TOp V) → Abs V → Bool → List String → List String → List String
+/-- how much the specification still knows: everything; the current table but not what is persisted
+    (an edit took effect while a flush was running: before or after the snapshot it wrote?); nothing -/
+inductive Know where
+  | all
+  | cur
+  | nothing
+  deriving DecidableEq
+
+def runSpec {V : Type} (k : Kind V) : List (TOp V) → Abs V → Know → List String → List String → List String
   | [], _, _, _, acc => acc.reverse
-  | op :: rest, a, live, ann, acc =>
-    if !live then runSpec k rest a false ann ("-" :: acc) else
+  | op :: rest, a, kn, ann, acc =>
+    if kn = .nothing then runSpec k rest a .nothing ann ("-" :: acc) else
     match op with
-    | .failFlush => runSpec k rest (Abs.cstep k.spec k.dflt a .failFlush) true ann ("-" :: acc)
+    | .failFlush => runSpec k rest (Abs.cstep k.spec k.dflt a .failFlush) kn ann ("-" :: acc)
     | .crash _ _ =>
       -- the statement: the file is the complete previous or the complete new table, and the restart
       -- comes up with it; which of the two is an observation
+      if kn = .cur then runSpec k rest a .nothing ann.tail ("-" :: acc) else
       match ann with
-      | "o" :: ann' => runSpec k rest (Abs.cstep k.spec k.dflt a (.crashFlush false)) true ann' ("K:old-or-new;ok" :: acc)
-      | "n" :: ann' => runSpec k rest (Abs.cstep k.spec k.dflt a (.crashFlush true)) true ann' ("K:old-or-new;ok" :: acc)
-      | _ => runSpec k rest a false ann.tail ("K:old-or-new;ok" :: acc)
+      | "o" :: ann' => runSpec k rest (Abs.cstep k.spec k.dflt a (.crashFlush false)) .all ann' ("K:old-or-new;ok" :: acc)
+      | "n" :: ann' => runSpec k rest (Abs.cstep k.spec k.dflt a (.crashFlush true)) .all ann' ("K:old-or-new;ok" :: acc)
+      | _ => runSpec k rest a .nothing ann.tail ("K:old-or-new;ok" :: acc)
+    | .during _ e =>
+      -- an edit overlapping a flush takes effect before or after it; its own answer is the same
+      -- either way.  When it took effect only after the flush had returned (b), the order is
+      -- flush, edit.  When it took effect while the flush was running (d), the edit is in the
+      -- current table, and whether the running flush persisted it is open — the next flush does.
+      let er := match e with
+        | .save v _ => if (k.spec.create v).isSome then "ok" else "err"
+        | _ => "ok"
+      match ann with
+      | "b" :: ann' => runSpec k rest (Abs.flushDuring k.spec k.dflt a e false) .all ann' (er :: acc)
+      | "d" :: ann' => runSpec k rest (Abs.step k.spec k.dflt a e) .cur ann' (er :: acc)
+      | _ => runSpec k rest a .nothing ann.tail ("-" :: acc)
     | .save v flag =>
       let ok := (k.spec.create v).isSome
-      runSpec k rest (Abs.step k.spec k.dflt a (.save v flag)) true ann ((if ok then "ok" else "err") :: acc)
-    | .del n => runSpec k rest (Abs.step k.spec k.dflt a (.del n)) true ann ("ok" :: acc)
-    | .get n => runSpec k rest a true ann (fmtOpt k.fmt (specGet k.spec a.cur n) :: acc)
-    | .all => runSpec k rest a true ann (fmtList k.fmt a.cur :: acc)
-    | .flush => runSpec k rest (Abs.step k.spec k.dflt a .flush) true ann ("-" :: acc)
-    | .restart => runSpec k rest (Abs.step k.spec k.dflt a .restart) true ann ("ok" :: acc)
+      runSpec k rest (Abs.step k.spec k.dflt a (.save v flag)) kn ann ((if ok then "ok" else "err") :: acc)
+    | .del n => runSpec k rest (Abs.step k.spec k.dflt a (.del n)) kn ann ("ok" :: acc)
+    | .get n => runSpec k rest a kn ann (fmtOpt k.fmt (specGet k.spec a.cur n) :: acc)
+    | .all => runSpec k rest a kn ann (fmtList k.fmt a.cur :: acc)
+    | .flush => runSpec k rest (Abs.step k.spec k.dflt a .flush) .all ann ("-" :: acc)   -- "after a flush a restarted server loads exactly that table"
+    | .restart =>
+      if kn = .cur then runSpec k rest a .nothing ann ("-" :: acc)
+      else runSpec k rest (Abs.step k.spec k.dflt a .restart) kn ann ("ok" :: acc)
     | .setDisk _ tbl =>
       -- a hand-written file whose entries have distinct canonical keys: a restart holds its
       -- entries in stored form ("names and patterns are canonicalised"); any other file: no claim
@@ -212,23 +278,23 @@ def runSpec {V : Type} (k : Kind V) : List (TOp V) → Abs V → Bool → List S
       | some t =>
         let stored := t.filterMap k.spec.create
         let keys := stored.map k.spec.key
-        if keys.eraseDups.length = keys.length then runSpec k rest { a with disk := some stored } true ann ("ok" :: acc)
-        else runSpec k rest a false ann ("-" :: acc)
-      | none => runSpec k rest a false ann ("-" :: acc)
+        if keys.eraseDups.length = keys.length then runSpec k rest { a with disk := some stored } .all ann ("ok" :: acc)
+        else runSpec k rest a .nothing ann ("-" :: acc)
+      | none => runSpec k rest a .nothing ann ("-" :: acc)
 
 def answer {V : Type} (k : Kind V) (ops : List (TOp V)) (ann : List String) : String :=
   let m := runModel k ops (Server.boot k.ops k.dflt .missing).1 []
-  let sp := runSpec k ops (Abs.fresh k.spec k.dflt) true ann []
+  let sp := runSpec k ops (Abs.fresh k.spec k.dflt) .all ann []
   s!"model={"|".intercalate m} spec={"|".intercalate sp}"
 
 def userKind : Kind User :=
   { ops := userOps PathCanon.asciiLower, spec := EntrySpecs.userSpec PathCanon.asciiLower, dflt := defaultUsers,
-    fmt := fmtUser, guarded := IpcHub.Gen.managerFlushGuard }
+    fmt := fmtUser, guarded := IpcHub.Gen.managerFlushGuard, locked := flushHoldsLock IpcHub.Gen.managerLocks }
 
 def routeKind (bad : List (List Char)) : Kind Route :=
   let cfg := genCfg PathCanon.asciiLower PathCanon.asciiSpace (fun u => !bad.contains u)
   { ops := routeOps cfg, spec := EntrySpecs.routeSpec cfg, dflt := defaultRoutes,
-    fmt := fmtRoute, guarded := IpcHub.Gen.routetableFlushGuard }
+    fmt := fmtRoute, guarded := IpcHub.Gen.routetableFlushGuard, locked := flushHoldsLock IpcHub.Gen.routetableLocks }
 
 def crashAnswer (hook part old new : String) : String :=
   match Fs.genProg, hexToBytes new with
